@@ -10,7 +10,7 @@ use serde_json::json;
 use std::collections::BTreeSet;
 
 const MAX_DEV: usize = 2;
-const N_MESHES: usize = 4;
+const N_MESHES: usize = 5;
 const EXEC_CAP: usize = 50_000;
 
 pub fn subject(which: usize) -> Mesh {
@@ -24,6 +24,11 @@ pub fn subject(which: usize) -> Mesh {
             // "roof": two normals sharing vertices
             let v = vec![Point3::new(0.0, 0.0, 0.0), Point3::new(0.0, 1.0, 0.0), Point3::new(1.0, 0.0, 0.0), Point3::new(1.0, 1.0, 0.0), Point3::new(-1.0, 0.0, 1.0), Point3::new(-1.0, 1.0, 1.0)];
             Mesh::new(v, vec![[0, 2, 3], [0, 3, 1], [4, 0, 1], [4, 1, 5]], false)
+        }
+        4 => {
+            // the roof with every index triple rotated, so that the vertices near the references come last
+            let v = vec![Point3::new(0.0, 0.0, 0.0), Point3::new(0.0, 1.0, 0.0), Point3::new(1.0, 0.0, 0.0), Point3::new(1.0, 1.0, 0.0), Point3::new(-1.0, 0.0, 1.0), Point3::new(-1.0, 1.0, 1.0)];
+            Mesh::new(v, vec![[2, 3, 0], [3, 1, 0], [0, 1, 4], [5, 4, 1]], false)
         }
         3 => {
             // the roof plus a zero-area face (three collinear vertices): it has no normal, so only the
@@ -43,11 +48,20 @@ fn plane_ref(z: f64) -> Mesh {
     Mesh::new(rv, vec![[0, 1, 2], [0, 2, 3]], false)
 }
 
+/// A small square in z = 0: subject vertices beyond its border are near it only through its edge, with an
+/// in-plane offset (which is what the planar tolerance limits)
+const SMALL: [f64; 4] = [-0.25, 0.5, -0.25, 0.85];
+fn small_ref() -> Mesh {
+    let [x0, x1, y0, y1] = SMALL;
+    let rv = vec![Point3::new(x0, y0, 0.0), Point3::new(x1, y0, 0.0), Point3::new(x1, y1, 0.0), Point3::new(x0, y1, 0.0)];
+    Mesh::new(rv, vec![[0, 1, 2], [0, 2, 3]], false)
+}
+
 /// Reference meshes: two large planes (unambiguous normal) and an offset copy of the subject
 fn others(which: usize) -> Vec<Mesh> {
     let m = subject(which);
     let moved: Vec<Point3> = m.vertices().iter().map(|p| p + Vector3::new(0.05, 0.0, 0.1)).collect();
-    vec![plane_ref(0.0), plane_ref(-0.6), Mesh::new(moved, m.faces().to_vec(), false)]
+    vec![plane_ref(0.0), plane_ref(-0.6), Mesh::new(moved, m.faces().to_vec(), false), small_ref()]
 }
 
 #[derive(Clone, Debug, Serialize, Deserialize)]
@@ -63,7 +77,7 @@ pub fn crits() -> Vec<Crit> {
             c.push(Crit::Facing(d, a));
         }
     }
-    for other in 0..3 {
+    for other in 0..4 {
         for all in [true, false] {
             for dist in [0.1, 1.5] {
                 for planar in [None, Some(0.2)] {
@@ -108,21 +122,33 @@ fn geometric(mesh: &Mesh, oth: &[Mesh], f: usize, crit: &Crit) -> Option<bool> {
             }
         }
         Crit::Near { other, all, dist, planar, angle } => {
-            if *other >= 2 {
+            if *other == 2 {
                 return None;
             }
-            let z = if *other == 0 { 0.0 } else { -0.6 };
             let rn = Vector3::new(0.0, 0.0, 1.0);
             let mut oks = Vec::new();
             for p in [a, b, c] {
-                // the large plane: projection is orthogonal, in-plane distance is zero
-                let d = (p.z - z).abs();
+                // closest point of the reference: orthogonal projection onto the large planes, clamped to the
+                // border of the small square
+                let (cp, inside) = if *other == 3 {
+                    let [x0, x1, y0, y1] = SMALL;
+                    (Point3::new(p.x.clamp(x0, x1), p.y.clamp(y0, y1), 0.0), true)
+                } else {
+                    let z = if *other == 0 { 0.0 } else { -0.6 };
+                    (Point3::new(p.x, p.y, z), p.x.abs() <= 5.0 && p.y.abs() <= 5.0)
+                };
+                let d = (p - cp).norm();
                 if (d - dist).abs() < 1e-9 {
                     return None;
                 }
-                let mut ok = d <= *dist && p.x.abs() <= 5.0 && p.y.abs() <= 5.0;
+                let mut ok = d <= *dist && inside;
                 if let Some(pt) = planar {
-                    ok &= 0.0 <= *pt;
+                    let off = p - cp;
+                    let in_plane = (off - rn * off.dot(&rn)).norm();
+                    if (in_plane - pt).abs() < 1e-9 {
+                        return None;
+                    }
+                    ok &= in_plane <= *pt;
                 }
                 if let Some(at) = angle {
                     // a face without a normal has no angle to judge
@@ -294,7 +320,7 @@ fn expand(t: &Tables, st: &State, depth: usize, l: &mut Local, out: &mut Vec<Sta
 
 pub fn run(tier: Tier) -> i32 {
     let mut cx = Ctx::new("C14", tier, "model_checking");
-    cx.rule = "explicit-state search over selections (bit sets over the faces of a tetrahedron, a two-normal 'roof', an octahedron and the roof with an extra zero-area face): initial states none, all, every singleton, every pair; actions {Add, Remove, Keep} x {facing: 7 directions x 3 angles; near_mesh: 3 reference meshes x all/any vertices x 2 distances x planar None/0.2 x angle None/0.3/1.0}; every transition (and the mesh built from every state) is executed under all hash-set iteration orders with at most 2 departures from the default order; the per-face predicate is computed (i) independently from the geometry for the plane references and (ii) by the code itself in the canonical context (singleton selection, Keep). distinct = distinct (mesh, selection) states".into();
+    cx.rule = "explicit-state search over selections (bit sets over the faces of a tetrahedron, a two-normal 'roof', an octahedron, the roof with an extra zero-area face and the roof with rotated index triples): initial states none, all, every singleton, every pair; actions {Add, Remove, Keep} x {facing: 7 directions x 3 angles; near_mesh: 4 reference meshes (two large planes, an offset copy, a small square whose border the subject overhangs) x all/any vertices x 2 distances x planar None/0.2 x angle None/0.3/1.0}; every transition (and the mesh built from every state) is executed under all hash-set iteration orders with at most 2 departures from the default order; the per-face predicate is computed (i) independently from the geometry for the plane references and (ii) by the code itself in the canonical context (singleton selection, Keep). distinct = distinct (mesh, selection) states".into();
     let t = tables();
     cx.bounds = json!({"max_deviations": MAX_DEV, "criteria": t.crits.len(), "meshes": 3, "depth": "closure", "execution_cap": EXEC_CAP});
     cx.require(&["non-initial selection", "empty selection", "full selection", "partial selection", "facing criterion", "near-mesh criterion with angle tolerance", "near-mesh criterion without angle tolerance", "independent predicate agrees"]);
